@@ -10,6 +10,7 @@ import Driver.RespStream
 import Driver.ClusterSysStream
 import Driver.TreeStream
 import Driver.RemoteStream
+import Driver.LifeStream
 /-
 hwdriver: reads
     stream <name>
@@ -40,6 +41,7 @@ def dispatch (stream : String) : Option (String → String → CaseOut) :=
   | "clustersys" => some clusterSysCase
   | "tree" => some treeCase
   | "remote" => some remoteCase
+  | "life" => some lifeCase
   | "remotelost" => some remoteLostCase
   | "childsched" => some childSchedCase
   | "provider" => some providerCase
